@@ -12,7 +12,7 @@ RULE = (
     "1e-3 bohr apart with equal exponents, near-parallel coefficient columns), positive point charges anywhere; "
     "invariant monitors on the observed arrays only: overlap symmetric, lambda_min >= -1e-9 lambda_max, |S_ab| <= "
     "1+1e-9; kinetic PSD; point-charge matrix of each positive charge NSD; ERI as (ab|cd) matrix symmetric PSD "
-    "(lambda_min >= -1e-6 lambda_max), (ab|ab) >= -1e-6*scale, (ab|cd)^2 <= (ab|ab)(cd|cd)(1+1e-6) + floor. "
+    "(lambda_min >= -1e-6 lambda_max), (ab|ab) >= -1e-6*scale, (ab|cd)^2 <= (ab|ab)(cd|cd) + 1e-6*max(ab|ab)^2 (the statement's allowance relative to the largest element). "
     "non-trivial = at least two shells (so that off-diagonal blocks exist) and, for ERI cases, total L >= 1."
 )
 FLOOR = {"quick": 30, "thorough": 120}
@@ -63,8 +63,8 @@ def run_case(case):
         asym = float(np.abs(A - A.T).max())
         sc = float(np.abs(A).max()) + 1e-300
         errs[name + "_asym"] = max(errs.get(name + "_asym", 0.0), asym / sc)
-        if asym > 1e-9 * sc + 1e-10 * (1 + amax):
-            viols.append(cm.viol("%s is not symmetric (%.3e of its largest element)" % (name, asym / sc), name + "_symmetric", asym / sc, 1e-9))
+        if asym > tol * sc + 1e-10 * (1 + amax):
+            viols.append(cm.viol("%s is not symmetric (%.3e of its largest element, allowance %.0e)" % (name, asym / sc, tol), name + "_symmetric", asym / sc, tol))
         w = np.linalg.eigvalsh(sign * 0.5 * (A + A.T))
         lam = float(w.max())
         neg = float(-w.min()) / (abs(lam) + 1e-300)
@@ -111,7 +111,8 @@ def run_case(case):
             if not float(-dg.min()) <= 1e-6 * sc:
                 viols.append(cm.viol("(ab|ab) = %.3e is negative beyond rounding" % dg.min(), "eri_diag", float(-dg.min()) / sc, 1e-6))
             d = np.clip(dg, 0, None)
-            bound = np.outer(d, d) * (1 + 1e-6) + (1e-15 * sc) ** 2
+            # allowance of the statement: violations below 1e-6 of the largest element (here: of its square)
+            bound = np.outer(d, d) + 1e-6 * sc ** 2
             exc = G ** 2 - bound
             evals += 1
             worst = float(exc.max())
